@@ -212,7 +212,7 @@ def _node_effects_const(ctx, g, f: Func, storage: str, consts: Dict[str, object]
     return out
 
 
-@rule("C04.R4", ["C04", "C16", "C12", "C07", "C11", "C01"], min_instances=2, design="3.4")
+@rule("C04.R4", ["C04", "C16", "C12", "C07", "C11", "C01", "C06"], min_instances=2, design="3.4")
 def appends_land_at_eof(ctx):
     """In CSVStorage.append, seek(0, SEEK_END) on the chosen handle dominates every write and the truncate."""
     cls = csv_cls(ctx)
@@ -236,7 +236,7 @@ def appends_land_at_eof(ctx):
         wrong = [i for i, es in ne.items() if any(e.endswith(".write") and not e.startswith(H) for e in es)]
         for w in wrong:
             bad.append(f"append(temporary={temporary}) writes `{norm(g.nodes[w].ast, 40)}` to the other handle")
-        yield Ob("C04.R4", ["C04", "C16", "C12", "C07", "C11", "C01"] if not temporary else ["C04"],
+        yield Ob("C04.R4", ["C04", "C16", "C12", "C07", "C11", "C01", "C06"] if not temporary else ["C04"],
                  f"{f.qual} | temporary={temporary} | writes at end of file", not bad,
                  "; ".join(bad[:3]) if bad else f"seek to EOF dominates {len(writes)} write/truncate node(s) on {H}",
                  f.loc())
@@ -335,7 +335,18 @@ def reopen_does_not_truncate(ctx):
     f = ctx.prog.func(f"{cls}._swap_temp_with_primary", "C04.R5")
     mode_attr, wmodes = mode_table(ctx, cls, "can_write")
     n_open = 0
-    for n in walk_local(f.node):
+    sites = [(f, n) for n in walk_local(f.node)]
+    # any other method (except the constructor) that opens the primary path is a reopen as well
+    roles = ctx.eff.roles[cls]
+    for g_ in ctx.prog.methods_of(cls):
+        if g_ is f or g_.name == "__init__":
+            continue
+        env_ = ctx.eff._role_env(g_, list(walk_local(g_.node)))
+        for n in walk_local(g_.node):
+            if isinstance(n, ast.Call) and isinstance(n.func, ast.Name) and n.func.id == "open" and n.args \
+                    and "PRIMARY_PATH" in ctx.eff.expr_roles(n.args[0], roles, env_):
+                sites.append((g_, n))
+    for f, n in sites:
         if isinstance(n, ast.Call) and isinstance(n.func, ast.Name) and n.func.id == "open":
             n_open += 1
             me = kw(n, "mode") or (n.args[1] if len(n.args) > 1 else None)
@@ -489,7 +500,7 @@ def no_third_file(ctx):
         raise AnalysisError("C15.R4", "no file-creating call found in the CSV storage (swap changed shape?)")
 
 
-@rule("C12.R1", ["C12", "C13", "C11"], min_instances=1, design="3.12")
+@rule("C12.R1", ["C12", "C13", "C11", "C04", "C02"], min_instances=1, design="3.12")
 def atomic_publication(ctx):
     """New contents replace the primary file only by an atomic rename, never by copy-onto or open-for-truncation."""
     cls = csv_cls(ctx)
@@ -526,7 +537,7 @@ def atomic_publication(ctx):
                     mode = e[len("PRIMARY.open("):-1]
                     if mode.strip("'\"").startswith("w"):
                         n += 1
-                        yield Ob("C12.R1", ["C12", "C13"], f"{f.qual} | publication | open for truncation", False,
+                        yield Ob("C12.R1", ["C12", "C13", "C04", "C02"], f"{f.qual} | publication | open for truncation", False,
                                  f"`{norm(c, 60)}` opens the primary path for truncation", ctx.prog.loc(c))
     if n == 0:
         raise AnalysisError("C12.R1", "no publication construct found (swap does not replace the primary file?)")
